@@ -6,9 +6,9 @@ CONSTANTS
   PruneH = 2
   MaxSteps = 5
   MaxWrites = 1
-  Reorgs = FALSE
+  Reorgs = TRUE
   MaxJump = 3
-  EmitOn = FALSE
+  EmitOn = TRUE
   SL = 500000
   TL = 1500000
   KeepRoots = TRUE
